@@ -260,6 +260,11 @@ def check(item, tier):
                     if ns_ == ghost:
                         raise KeyError(ns_)
                     return SpecPOMDP.observation_dist(self, a_, ns_)
+
+                def reward(self, s_, a_, ns_):
+                    if ns_ == ghost:
+                        raise KeyError((s_, a_, ns_))      # the reward function is not defined for a transition that cannot happen
+                    return SpecPOMDP.reward(self, s_, a_, ns_)
             plain = SpecPOMDP(ps, SLAB[li], ALAB[li], OLAB[oi_])
             gh = Ghosted(ps, SLAB[li], ALAB[li], OLAB[oi_])
             listed = [x for x in plain.state_list]
@@ -278,6 +283,19 @@ def check(item, tier):
                               for k, v in BeliefMDP(gh).next_state_dist(Belief(tuple(listed), tuple(float(bd.prob(x)) for x in listed)), al(a)).items()}
                     except Exception as e:
                         bad('zero_probability_successor_is_treated_as_an_outcome', {'belief': bq, 'a': a, 'error': repr(e)[:200]})
+                        break
+                    try:
+                        bb = Belief(tuple(listed), tuple(float(bd.prob(x)) for x in listed))
+                        rew_p, rew_g = BeliefMDP(plain).reward(bb, al(a), None), BeliefMDP(gh).reward(bb, al(a), None)
+                        avp = AlphaVectorPolicy(plain, np.eye(len(listed)))
+                        avg = AlphaVectorPolicy(gh, np.eye(len(listed)))
+                        av_p, av_g = avp.action_value(bb, al(a)), avg.action_value(bb, al(a))
+                    except Exception as e:
+                        bad('zero_probability_successor_is_treated_as_an_outcome', {'belief': bq, 'a': a, 'error': repr(e)[:200],
+                                                                                     'where': 'belief reward / alpha-vector action value'})
+                        break
+                    if abs(rew_p - rew_g) > 1e-12 or abs(av_p - av_g) > 1e-12:
+                        bad('filter_depends_on_a_zero_probability_successor', {'belief': bq, 'a': a, 'reward': [rew_p, rew_g], 'action_value': [av_p, av_g]})
                         break
                     if pred_p != pred_g or any(x != y for x, y in posts):
                         bad('filter_depends_on_a_zero_probability_successor', {'belief': bq, 'a': a, 'plain': repr(pred_p), 'ghosted': repr(pred_g)})
